@@ -148,6 +148,9 @@ class Setup:
         start = self.rng.randrange(1 << 31)
         for k in range(20000):
             nonce = (start + k) & 0xFFFFFFFF
+            if self.rng.random() < 0.02:
+                # transactions keep arriving while the miner works on this head (before the next candidate is requested)
+                c["pool_additions_while_mining"] = c.get("pool_additions_while_mining", 0) + self.fill_pool(self.rng.choice([1, 1, 2]))
             mw.send_queues[0].items.clear()
             quiet(mw.handle_request_scrypt_input_message, 0, nonce)
             kind, (summary, height) = mw.send_queues[0].items[-1]
@@ -339,6 +342,7 @@ def finalize(m, tier):
                    ("served_state_checks", c.get("served_state_checks", 0), 100),
                    ("peers_checked_for_broadcast", c.get("peers_checked_for_broadcast", 0), 100),
                    ("clock_before_head_timestamp", c.get("clock_before_head_timestamp", 0), 10),
-                   ("consecutive_found_blocks", c.get("consecutive_found_blocks", 0), 30)],
+                   ("consecutive_found_blocks", c.get("consecutive_found_blocks", 0), 30),
+                   ("pool_additions_while_mining", c.get("pool_additions_while_mining", 0), 50)],
         "extra": {},
     }
